@@ -58,6 +58,14 @@ POOLS = {
     "count": ["0", "1", "2", "255", "1000"],
     "float": ["0.5", "1.5", "-2.25", "1e300", "0.1", "3.75", "inf"],
     "intfloat": ["0.0", "1.0", "-2.0", "3.0", "1e10"],
+    "bigintfloat": ["2.0**53", "2.0**62", "-2.0**63", "9007199254740992.0"],
+    "hugefloat": ["2.0**63", "-2.0**64", "1e19", "2.0**63 + 2048"],
+    "tzmidnight": ["pd.Timestamp('2020-01-01', tz='Europe/Amsterdam')", "pd.Timestamp('2021-06-15', tz='Europe/Amsterdam')"],
+    "tzmidnight_east": ["pd.Timestamp('2020-01-01', tz='Asia/Tokyo')", "pd.Timestamp('2021-06-15', tz='Asia/Tokyo')"],
+    "tzmidnight_west": ["pd.Timestamp('2020-01-01', tz='US/Pacific')", "pd.Timestamp('2021-06-15', tz='US/Pacific')"],
+    "tzdatetime": ["pd.Timestamp('2020-01-01 09:00', tz='Asia/Tokyo')", "pd.Timestamp('2021-06-15 17:30', tz='Asia/Tokyo')"],
+    "tzutcmidnight_local": ["pd.Timestamp('2020-01-01 09:00', tz='Asia/Tokyo')", "pd.Timestamp('2021-06-15 09:00', tz='Asia/Tokyo')"],
+    "tzdatestr": ["'2020-01-01T00:00:00+09:00'", "'2021-06-15T00:00:00+09:00'"],
     "bool": ["True", "False"],
     "text": ["'a'", "'hello world'", "'xyz'", "'ß'", "'x y'", "'foo'"],
     "floatstr": ["'1.5'", "'0.25'", "'-2.5'", "'1.5e-1'", "'3.75'", "'.5'"],
@@ -91,6 +99,7 @@ POOLS = {
     "geom": ["wkt.loads('POINT (-92 42)')", "wkt.loads('POINT (1 2)')"],
     "geomstr": ["'POINT (-92 42)'", "'POINT (1 2)'", "'LINESTRING (0 0, 1 1)'"],
     "other": ["(1, 2)", "[1]", "b'x'", "{'a': 1}", "object()"],
+    "nullstr": ["'nan'", "'NaN'", "'NAN'", "'-nan'", "'NaT'", "'None'", "'<NA>'", "'null'", "''", "'inf'", "'-inf'"],
 }
 NULLS = ["None", "nan", "pd.NA", "pd.NaT"]
 
@@ -119,6 +128,14 @@ ENCODINGS = [
     ("DateTime", "pydatetime", ["None"]),
     ("DateTime", "datetimestr", ["None", "object"]),
     ("Date", "middatetime", ["None"]),
+    ("Date", "tzmidnight", ["None"]),
+    ("Date", "tzmidnight_east", ["None"]),
+    ("Date", "tzmidnight_west", ["None"]),
+    ("DateTime", "tzdatetime", ["None"]),
+    ("DateTime", "tzutcmidnight_local", ["None"]),
+    ("Date", "tzdatestr", ["None"]),
+    ("Integer", "bigintfloat", ["None", "'float64'"]),
+    ("Float", "hugefloat", ["None", "'float64'"]),
     ("Date", "date", ["None", "object"]),
     ("Date", "datestr", ["None"]),
     ("Time", "time", ["None", "object"]),
@@ -154,8 +171,9 @@ def series_recipe(values, dtype="None", index="None", name="None"):
     return f"pd.Series([{', '.join(values)}]{dt}{idx}{nm})"
 
 
-NUMERIC_POOLS = ("int", "count", "float", "intfloat", "bool", "complex", "zimcomplex")
-TIME_POOLS = ("datetime", "pydatetime", "middatetime", "timedelta")
+STR_NULLS = {"intstr": ["'nan'", "'NaN'"], "intfloatstr": ["'nan'", "'NAN'"], "floatstr": ["'nan'", "'NaN'"], "datestr": ["'NaT'", "''"], "datetimestr": ["'NaT'"]}
+NUMERIC_POOLS = ("int", "count", "float", "intfloat", "bool", "complex", "zimcomplex", "bigintfloat", "hugefloat")
+TIME_POOLS = ("datetime", "pydatetime", "middatetime", "timedelta", "tzmidnight", "tzmidnight_east", "tzmidnight_west", "tzdatetime", "tzutcmidnight_local")
 
 
 def null_ok(dtype, null, pool=None):
@@ -182,6 +200,8 @@ def family_stream(rnd, n, lengths=(1, 2, 3, 5, 6, 7)):
         vals = [rnd.choice(POOLS[pool]) for _ in range(k)]
         nullmode = rnd.choice(["none", "none", "first", "middle", "last", "allbutone"])
         null = rnd.choice(NULLS)
+        if pool in STR_NULLS and dtype in ("None", "object") and rnd.random() < 0.35:
+            null = rnd.choice(STR_NULLS[pool])
         if nullmode != "none" and null_ok(dtype, null, pool):
             if nullmode == "first":
                 vals = [null] + vals
@@ -280,7 +300,8 @@ def special_stream():
         "pd.Series([datetime.date(2020, 1, 1), pd.Timestamp('2020-01-02')])", "pd.Series([pd.Timestamp('2020-01-02'), datetime.date(2020, 1, 1)])",
         "pd.Series(['0b8a22ca80ad4df585acfa49c44b7ede'])", "pd.Series(['http://a@b/c'])", "pd.Series(['c://x/y'])", "pd.Series(['/a@b'])",
         "pd.Series(['2020', '2021'])", "pd.Series(['01', '02'])", "pd.Series(['1_0'])", "pd.Series(['nan', '1.5'])", "pd.Series(['inf'])",
-        "pd.Series(['True', 'yes'])", "pd.Series([''])", "pd.Series(['', 'a'])", "pd.Series([' '])", "pd.Series(['\\x00'])",
+        "pd.Series(['True', 'yes'])", "pd.Series(['nan', 'NaN'])", "pd.Series(['nan'])", "pd.Series(['NaN', None])", "pd.Series(['-nan', 'nan', 'nan'])",
+        "pd.Series(['NaT', 'NaT'])", "pd.Series(['inf', '-inf'])", "pd.Series(['nan', 'nan'], dtype=object)", "pd.Series(['nan', '1'])", "pd.Series(['NaT', '2020-01-01'])", "pd.Series([''])", "pd.Series(['', 'a'])", "pd.Series([' '])", "pd.Series(['\\x00'])",
         "pd.Series(['http://[::1'])", "pd.Series(['POINT (1'])", "pd.Series(['a@'])", "pd.Series(['@b'])", "pd.Series(['1+0j', '2+0j'])",
     ]
     return [{"recipe": r, "family": "special", "pool": "special", "dtype": "?", "nulls": "?", "null": None, "len": -1, "index": "None"} for r in rs]
